@@ -440,6 +440,7 @@ pub fn execute(sc: &RScenario, opts: &ExecOpts) -> RunReport {
     let all_have_repairs = errors.iter().all(|e| !e.repairs.is_empty());
     let mut walk_stopped_unstable = false;
     let mut unstable_applied: BTreeSet<usize> = BTreeSet::new();
+    let mut first_inconclusive: Option<usize> = None;
     let push_real = |edited: &mut Vec<InTok>, i: usize| {
         let l = lexer.lexemes[i];
         edited.push(InTok { tok: l.tok_id, start: l.start, len: l.len, faulty: false });
@@ -659,6 +660,7 @@ pub fn execute(sc: &RScenario, opts: &ExecOpts) -> RunReport {
             }
             SearchOutcome::Inconclusive(_) => {
                 j.rep.probes.hit("c06_inconclusive");
+                first_inconclusive.get_or_insert(ei);
                 outcome_class = 6;
             }
         }
@@ -729,7 +731,11 @@ pub fn execute(sc: &RScenario, opts: &ExecOpts) -> RunReport {
                     // known only if a lookahead-unstable repair was applied at this error, or the
                     // walk had to stop earlier because one did not replay
                     let tainted = unstable_applied.iter().next().map_or(false, |t| *t <= i);
-                    if !j.p1 && (tainted || (walk_stopped_unstable && !walk_ok)) {
+                    if !j.p1 && !tainted && first_inconclusive.map_or(false, |t| t <= i) {
+                        // whether a lookahead-unstable repair was applied cannot be decided: the
+                        // reference search did not complete for an earlier error of this parse
+                        j.rep.probes.hit("p2_unclassifiable_c07b");
+                    } else if !j.p1 && (tainted || (walk_stopped_unstable && !walk_ok)) {
                         j.known("C07", "C07-b-progress", "rstar", format!("error {} at lexeme {b}, previous at lexeme {a} (a lookahead-unstable repair was applied)", i + 1));
                     } else {
                         j.viol("C07", "C07-b-progress", format!("error {} at lexeme {b}, previous error at lexeme {a}: less than three lexemes of progress", i + 1));
